@@ -1572,7 +1572,7 @@ func main() {
 	mon.Floor("t:exh:dedup", exhDedupCount)
 	mon.Floor("witness", len(witnesses))
 	// sub cli: goalign dedup / goalign compress
-	mon.Floor("cli:runs", 280)
+	mon.Floor("cli:runs", 200)
 	mon.Floor("cli:outcome:ok", 250)
 	mon.Floor("cli:dedup", 150)
 	mon.Floor("cli:compress", 80)
@@ -1586,8 +1586,6 @@ func main() {
 		mon.Floor("cli:dedup:"+k, 60)
 	}
 	mon.Floor("cli:dedup:log=false", 20)
-	mon.Floor("cli:dedup:name=true", 20)
-	mon.Floor("cli:dedup:name:removed>0", 10)
 	mon.Floor("cli:dedup:removed>0", 50)
 	mon.Floor("cli:dedup:n-as-gap-merges-more-than-exact", 25)
 	for _, a := range []string{"nt", "aa", "auto"} {
